@@ -2,7 +2,11 @@
 
 spec:   spec/MediaCache.tla       one request: handler kind, body kind, value/error cache, stream consumption,
                                   one action per access (get_media(), get_media(default_when_empty=..), .media)
-        spec/MC_MediaCache.tla    bounded instance, behaviour export, document / form shapes
+                                  `framing` also says how the request declares its length (explicit Content-Length incl. 0 /
+                                  chunked / no header at all / blank header): HandlerDecidesEmpty; the cache keeps the observed
+                                  projection [type, title, desc, cause] of the first error: LaterAccessesObserveFirstError
+        spec/MC_MediaCache.tla    bounded instance, behaviour export, document / form shapes; instance P: access contexts
+                                  (middleware probe, responder, except blocks, error handler) in the order of a request's life
         spec/MediaCacheTrace.tla  trace judge
         spec/MediaCacheResp.tla   response side: assignments / in-place mutation + re-assignment / render_body() /
                                   data / text on one Response; the body sent is the document as LAST assigned
@@ -17,8 +21,11 @@ legs:   M  exhaustive TLC check (complete state graph) + coverage guard + wrong-
            through the raw WSGI / ASGI drivers under several chunkings; valid bodies are what a real app
            rendered from resp.media (TLC-enumerated document shapes) on the other stack; every access is
            compared with the behaviour
-        B  seeded random documents, corrupted bodies, content types, chunkings and longer access
-           histories on both stacks, judged by TLC (MediaCacheTrace)
+        P  TLC behaviours of instance P (simulation in quick, exhaustive depth 3 + simulation in thorough): the accesses of one
+           request are made by a probing middleware, by the responder (plain / inside except blocks) and by an error handler;
+           every raised error is compared, as an application observes it, with the snapshot taken at the first raise
+        B  seeded random documents, corrupted bodies, content types, chunkings, length declarations, access contexts and
+           longer access histories on both stacks, judged by TLC (MediaCacheTrace)
 Python never decides what get_media must answer: TLC does.  The trusted decoders json.loads /
 bytes.decode only classify a byte string as valid / undecodable and give the document a valid body
 denotes.
@@ -41,7 +48,16 @@ META = {
                   'are sent as bodies of their own; ASGI requests are driven with and without a Content-Length header. Bodies nested '
                   'deeper than the interpreter recursion limit are probed separately; integer literals at the int<->str conversion limit '
                   '(4300 / 4301 / 5000 digits, top level and nested) are part of the body pool.  Response histories: all of length 4 '
-                  '(quick) / 5 (thorough), random to 17 statements.  Trusted: TLC, json.loads / bytes.decode as classifiers, '
+                  '(quick) / 5 (thorough), random to 17 statements.  Length declarations: every behaviour with an explicit Content-Length '
+                  '(Content-Length: 0 for empty bodies) and, ASGI, chunked; empty bodies additionally with no Content-Length header at all and '
+                  'with a blank one, on both stacks, for all 10 content-type kinds (JSON, +json, parameters, subclass, custom, form, '
+                  'unsupported) x all 81 access histories of length 4 (first access get_media(default) / get_media() / .media), ASGI with '
+                  'single and multiple empty body events; Content-Length values that disagree with the body are not covered (C09). '
+                  'Observed error: (type, title, description, __cause__ object and message, to_dict()) of every raised media error is '
+                  'compared with a snapshot taken at the first raise, the rendered error document with that snapshot; access contexts '
+                  '(middleware probe, plain, except block for an unrelated exception, except block of the media error itself, error '
+                  'handler) are simulated by TLC to 5 accesses (quick: ~3 000 behaviours) and enumerated to 3 (thorough: 97 599); '
+                  'traceback and __context__ of the error are not part of the projection.  Trusted: TLC, json.loads / bytes.decode as classifiers, '
                   'engine/drivers.py.',
 }
 
@@ -168,11 +184,15 @@ def strict_eq(a, b):
 
 # ---- the real apps ------------------------------------------------------------------------------
 DEFAULT = object()
+NOPROJ = {'type': 'none', 'title': 'none', 'desc': 'none', 'cause': 'none'}
 
 
 class Script:
     def __init__(self):
-        self.calls = []          # [(op, default given)]
+        self.calls = []          # [(op, default given, context)]
+        self.st = None           # per-request observation state (shared by middleware, responder, error handler)
+        self.attempted = 0       # accesses the sites of this request set out to make
+        self.propagated = None   # the exception the responder let escape
         self.expect = None
         self.has_expect = False
         self.reraise = True
@@ -245,24 +265,61 @@ class Harness:
         def begin():
             st = State()
             st.first_val, st.first_err, st.have_val, st.last_exc = None, None, False, None
+            st.first_obs = None
             return st
 
-        def record(st, op, d, reads_before, reads_after, val=None, exc=None):
-            e = {'op': op, 'd': d, 'out': 'val', 'ek': 'none', 'status': 0, 'same': False, 'eq': False, 'errsame': False,
-                 'touched': reads_after > reads_before, 'nparse': h.s.loads, 'info': ''}
+        def observe(exc):
+            """what an application can see of an error: a snapshot (taken when it is raised), compared by == later;
+            the cause is compared as an object (exceptions compare by identity) and by its message"""
+            c = exc.__cause__
+            o = {'type': type(exc), 'cause': c, 'cause_text': None if c is None else (type(c).__name__, str(c)), 'args': repr(exc.args)}
+            if isinstance(exc, falcon.HTTPError):
+                o.update(title=exc.title, description=exc.description, status=exc.status, doc=json.dumps(exc.to_dict(), sort_keys=True))
+            else:
+                o.update(text=str(exc))
+            return o
+
+        def read_proj(exc):
+            """the observation in the vocabulary of MediaCache!ProjOf (a reading, nothing is decided here)"""
+            c = exc.__cause__
+            p = dict(NOPROJ, type=type(exc).__name__, cause='none' if c is None else 'parser' if isinstance(c, Exception) else 'other')
+            if isinstance(exc, (HookBoom, CustomBoom)):
+                return dict(p, type='handlers-own', desc='handlers-own')
+            if isinstance(exc, falcon.HTTPError):
+                t, dsc = exc.title or '', exc.description or ''
+                p['title'] = 'invalid-media' if t.startswith('Invalid ') else 'unsupported' if t.startswith('Unsupported') else t
+                if isinstance(exc, falcon.MediaNotFoundError):
+                    p['desc'] = 'empty-body' if dsc.startswith('Could not parse an empty ') else dsc
+                elif isinstance(exc, falcon.MediaMalformedError):
+                    p['desc'] = 'could-not-parse+parser-message' if c is not None and str(c) and dsc.startswith('Could not parse ') \
+                        and dsc.endswith(' - ' + str(c)) else 'could-not-parse' if dsc.startswith('Could not parse ') else dsc
+                else:
+                    p['desc'] = 'unsupported' if 'unsupported' in dsc else dsc
+            return p
+
+        def record(st, op, d, reads_before, reads_after, val=None, exc=None, cx='plain'):
+            e = {'op': op, 'd': d, 'cx': cx, 'out': 'val', 'ek': 'none', 'status': 0, 'same': False, 'eq': False, 'errsame': False,
+                 'touched': reads_after > reads_before, 'nparse': h.s.loads, 'info': '', 'psame': True, 'p': dict(NOPROJ)}
             st.last_exc = exc
             if exc is not None:
-                if isinstance(exc, falcon.HTTPError):
-                    e['out'], e['ek'] = 'err', classify(exc)
-                    e['status'] = int(str(exc.status)[:3])
+                if isinstance(exc, (falcon.HTTPError, HookBoom, CustomBoom)):
+                    if isinstance(exc, falcon.HTTPError):
+                        e['out'], e['ek'] = 'err', classify(exc)
+                        e['status'] = int(str(exc.status)[:3])
+                    else:
+                        # the handler's own failure: not an HTTP error, reaches the client as a 500
+                        e['out'], e['ek'], e['status'] = 'err', 'custom', 500
                     e['errsame'] = st.first_err is None or exc is st.first_err
-                    if st.first_err is None:
-                        st.first_err = exc
-                elif isinstance(exc, (HookBoom, CustomBoom)):
-                    # the handler's own failure: not an HTTP error, reaches the client as a 500
-                    e['out'], e['ek'], e['status'] = 'err', 'custom', 500
-                    e['errsame'] = st.first_err is None or exc is st.first_err
-                    if st.first_err is None:
+                    e['p'] = read_proj(exc)
+                    if e['ek'] != 'unsupported':
+                        obs = observe(exc)
+                        if st.first_err is None:
+                            st.first_obs = obs
+                        e['psame'] = obs == st.first_obs
+                        if not e['psame']:
+                            e['info'] = 'first raise showed %r, this one %r' % (
+                                {k: v for k, v in st.first_obs.items() if obs.get(k) != v}, {k: v for k, v in obs.items() if st.first_obs.get(k) != v})
+                    if st.first_err is None and e['ek'] != 'unsupported':
                         st.first_err = exc
                 else:
                     e['out'], e['info'] = 'exc', repr(exc)
@@ -281,6 +338,101 @@ class Harness:
                         e['info'] = '<%s not printable>' % type(val).__name__
             h.s.events.append(e)
 
+        # ---- one site of a request's life (middleware / responder / error handler) makes its accesses --------
+        def w_access(req, op, d, cx):
+            if cx == 'except':
+                try:
+                    raise LookupError('an unrelated failure that is being handled')
+                except LookupError:
+                    return req.media if op == 'media' else (req.get_media(default_when_empty=DEFAULT) if d else req.get_media())
+            return req.media if op == 'media' else (req.get_media(default_when_empty=DEFAULT) if d else req.get_media())
+
+        def w_site(req, calls):
+            st, inp, i = h.s.st, req.env['wsgi.input'], 0
+            h.s.attempted += len(calls)
+            while i < len(calls):
+                op, d, cx = calls[i]
+                cx = 'plain' if cx == 'exceptself' else cx        # nothing is being handled here
+                i += 1
+                b = len(inp.calls)
+                try:
+                    v = w_access(req, op, d, cx)
+                except Exception as ex:  # noqa
+                    record(st, op, d, b, len(inp.calls), exc=ex, cx=cx)
+                    # accesses made while the error just raised is being handled
+                    while i < len(calls) and calls[i][2] == 'exceptself':
+                        op2, d2, _ = calls[i]
+                        i += 1
+                        b = len(inp.calls)
+                        try:
+                            v2 = w_access(req, op2, d2, 'exceptself')
+                        except Exception as ex2:  # noqa
+                            record(st, op2, d2, b, len(inp.calls), exc=ex2, cx='exceptself')
+                        else:
+                            record(st, op2, d2, b, len(inp.calls), val=v2, cx='exceptself')
+                else:
+                    record(st, op, d, b, len(inp.calls), val=v, cx=cx)
+
+        async def a_access(req, op, d, cx):
+            if cx == 'except':
+                try:
+                    raise LookupError('an unrelated failure that is being handled')
+                except LookupError:
+                    return (await req.media) if op == 'media' else \
+                        (await req.get_media(default_when_empty=DEFAULT) if d else await req.get_media())
+            return (await req.media) if op == 'media' else (await req.get_media(default_when_empty=DEFAULT) if d else await req.get_media())
+
+        async def a_site(req, calls):
+            st, i = h.s.st, 0
+            h.s.attempted += len(calls)
+            while i < len(calls):
+                op, d, cx = calls[i]
+                cx = 'plain' if cx == 'exceptself' else cx
+                i += 1
+                b = h.reads
+                try:
+                    v = await a_access(req, op, d, cx)
+                except Exception as ex:  # noqa
+                    record(st, op, d, b, h.reads, exc=ex, cx=cx)
+                    while i < len(calls) and calls[i][2] == 'exceptself':
+                        op2, d2, _ = calls[i]
+                        i += 1
+                        b = h.reads
+                        try:
+                            v2 = await a_access(req, op2, d2, 'exceptself')
+                        except Exception as ex2:  # noqa
+                            record(st, op2, d2, b, h.reads, exc=ex2, cx='exceptself')
+                        else:
+                            record(st, op2, d2, b, h.reads, val=v2, cx='exceptself')
+                else:
+                    record(st, op, d, b, h.reads, val=v, cx=cx)
+
+        self.begin = begin
+
+        class WProbe:
+            """a middleware that looks at the media before the responder does (and swallows what that raises)"""
+            def process_request(self, req, resp):
+                if req.method == 'POST':
+                    w_site(req, [c for c in h.s.calls if c[2] == 'mw'])
+
+        class AProbe:
+            async def process_request(self, req, resp):
+                if req.method == 'POST':
+                    await a_site(req, [c for c in h.s.calls if c[2] == 'mw'])
+
+        def w_errh(req, resp, ex, params):
+            """an error handler that looks at the media again, then lets falcon render the error it was given"""
+            w_site(req, [c for c in h.s.calls if c[2] == 'errh'])
+            if isinstance(ex, falcon.HTTPError):
+                raise ex
+            resp.status, resp.text = 500, 'the handler failed'
+
+        async def a_errh(req, resp, ex, params):
+            await a_site(req, [c for c in h.s.calls if c[2] == 'errh'])
+            if isinstance(ex, falcon.HTTPError):
+                raise ex
+            resp.status, resp.text = 500, 'the handler failed'
+
         class WRes:
             def on_get(self, req, resp):
                 if h.s.ctype is not None:
@@ -288,16 +440,10 @@ class Harness:
                 resp.media = h.s.doc
 
             def on_post(self, req, resp):
-                st = begin()
-                inp = req.env['wsgi.input']
-                for op, d in h.s.calls:
-                    b = len(inp.calls)
-                    try:
-                        v = req.media if op == 'media' else (req.get_media(default_when_empty=DEFAULT) if d else req.get_media())
-                        record(st, op, d, b, len(inp.calls), val=v)
-                    except Exception as ex:  # noqa
-                        record(st, op, d, b, len(inp.calls), exc=ex)
+                w_site(req, [c for c in h.s.calls if c[2] not in ('mw', 'errh')])
+                st = h.s.st
                 if st.last_exc is not None and h.s.reraise:
+                    h.s.propagated = st.last_exc
                     raise st.last_exc
                 resp.text = 'done'
 
@@ -308,16 +454,10 @@ class Harness:
                 resp.media = h.s.doc
 
             async def on_post(self, req, resp):
-                st = begin()
-                for op, d in h.s.calls:
-                    b = h.reads
-                    try:
-                        v = (await req.media) if op == 'media' else \
-                            (await req.get_media(default_when_empty=DEFAULT) if d else await req.get_media())
-                        record(st, op, d, b, h.reads, val=v)
-                    except Exception as ex:  # noqa
-                        record(st, op, d, b, h.reads, exc=ex)
+                await a_site(req, [c for c in h.s.calls if c[2] not in ('mw', 'errh')])
+                st = h.s.st
                 if st.last_exc is not None and h.s.reraise:
+                    h.s.propagated = st.last_exc
                     raise st.last_exc
                 resp.text = 'done'
 
@@ -354,9 +494,16 @@ class Harness:
                 await inner(scope, recv, send)
             return aapp
         self.apps = {}
-        for custom in (False, True):
-            wapp = falcon.App(response_type=CustomResponse) if custom else falcon.App()
-            ainner = falcon.asgi.App(response_type=CustomAResponse) if custom else falcon.asgi.App()
+        for custom in (False, True, 'sites'):
+            if custom == 'sites':
+                # the request's other sites: a probing middleware in front, an error handler behind the responder
+                wapp, ainner = falcon.App(middleware=[WProbe()]), falcon.asgi.App(middleware=[AProbe()])
+                for etype in (Exception, falcon.HTTPError):
+                    wapp.add_error_handler(etype, w_errh)
+                    ainner.add_error_handler(etype, a_errh)
+            else:
+                wapp = falcon.App(response_type=CustomResponse) if custom else falcon.App()
+                ainner = falcon.asgi.App(response_type=CustomAResponse) if custom else falcon.asgi.App()
             for app in (wapp, ainner):
                 for opts in (app.req_options, app.resp_options):
                     opts.media_handlers[falcon.MEDIA_JSON] = media.JSONHandler(loads=loads)
@@ -371,7 +518,7 @@ class Harness:
             self.apps[('asgi', custom)] = wrap(ainner)
 
     def call(self, stack, req, custom=False):
-        app = self.apps[(stack, bool(custom))]
+        app = self.apps[(stack, custom if custom == 'sites' else bool(custom))]
         res = drivers.wsgi_call(app, req) if stack == 'wsgi' else drivers.asgi_call(app, req)
         if res.errors:
             raise MachineryError('protocol monitor: %r' % (res.errors,))
@@ -390,14 +537,29 @@ class Harness:
         return res.body, res.header('content-type'), None
 
     def request(self, stack, ctype, body, chunks, calls, expect=None, has_expect=False, reraise=True, framing='length', custom=False):
+        """framing: how the request declares its body - 'length' an explicit Content-Length (0 for an empty body), 'chunked'
+        Transfer-Encoding: chunked, 'absent' neither header, 'blank' a Content-Length header with a blank value."""
         self.s = Script()
-        self.s.calls, self.s.expect, self.s.has_expect, self.s.reraise = list(calls), expect, has_expect, reraise
+        calls = [tuple(c) if len(c) == 3 else (c[0], c[1], 'plain') for c in calls]
+        if any(c[2] in ('mw', 'errh') for c in calls):
+            custom = 'sites'
+        self.s.calls, self.s.expect, self.s.has_expect, self.s.reraise = calls, expect, has_expect, reraise
+        self.s.st = self.begin()
         hs = [] if ctype is None else [('Content-Type', ctype)]
         if framing == 'chunked':
-            # no Content-Length: the body ends when the server says so (drivers.Req adds a length otherwise)
+            # no Content-Length: the body ends when the server says so
             if stack != 'asgi':
                 raise MachineryError('chunked framing is only expressible on ASGI here')
             hs.append(('Transfer-Encoding', 'chunked'))
+        elif framing == 'length':
+            hs.append(('Content-Length', str(len(body))))
+        elif framing in ('absent', 'blank'):
+            if body:
+                raise MachineryError('a request that declares no body has none')
+            if framing == 'blank':
+                hs.append(('Content-Length', ''))
+        else:
+            raise MachineryError('unknown framing %r' % (framing,))
         res = self.call(stack, drivers.Req('POST', target=b'/m', headers=hs, body=body, chunks=chunks), custom)
         evs = self.s.events
         wire = -1
@@ -407,6 +569,17 @@ class Harness:
             wire = res.status
         elif res.status != 200:
             wire = res.status
+        # what the client was shown, against the snapshot of the first error
+        self.wirebody = 'na'
+        st = self.s.st
+        if self.s.propagated is not None and isinstance(self.s.propagated, self.falcon.HTTPError) and st.first_obs is not None \
+                and 'doc' in st.first_obs and res.exc is None:
+            try:
+                shown = json.dumps(json.loads(res.body.decode('utf-8')), sort_keys=True)
+            except ValueError:
+                shown = repr(res.body)
+            self.wirebody = 'same' if shown == st.first_obs['doc'] else 'diff'
+            self.wireinfo = 'client got %s, the first error renders as %s' % (shown[:300], st.first_obs['doc'][:300])
         return evs, wire
 
 
@@ -777,6 +950,86 @@ def leg_fresh(ctx, H):
     ctx.progress('fresh legs done: %d histories, %d random' % (n, len(traces)))
 
 
+# ---- leg P: access contexts and the observed error (MC_MediaCache instance P) -------------------------
+P_DOCS = {'json': [{'k': [1, 'caf\u00e9'], 'n': None}, [1, {'a': 'b'}, 'x'], {'deep': {'er': [True, 2.5]}}],
+          'form': [{'a': '1', 'b': ['x', 'y']}, {'q': 's t'}, {'n': '\u00e9', 'm': ['1', '2', '3']}]}
+
+
+def leg_p(ctx, H):
+    """TLC behaviours of instance P: accesses made by a middleware, by the responder (plain, inside an except block for an
+    unrelated exception, inside the except block of the media error itself) and by an error handler."""
+    rng = ctx.rng
+    if ctx.quick:
+        rp = ctx.tlc('MC_MediaCache', 'MC_MediaCachePS.cfg', coverage=True, timeout=300, workers=4, count=False,
+                     simulate={'num': 260}, depth=6, seed=ctx.seed % 100000 + 1)
+        need = 1500
+    else:
+        rp = ctx.tlc('MC_MediaCache', 'MC_MediaCacheP.cfg', coverage=True, timeout=900, workers=4, count=False)
+        need = 97599
+    ctx.require_coverage(rp, ['PMiddleware', 'PResponder', 'PInExcept', 'PInExceptSelf', 'PErrorHandler'])
+    behs = list({digest(j): j for j in rp.json if 'ev' in j}.values())
+    if not ctx.quick:
+        rs = ctx.tlc('MC_MediaCache', 'MC_MediaCachePS.cfg', timeout=600, workers=4, count=False, simulate={'num': 3000}, depth=6,
+                     seed=ctx.seed % 100000 + 1)
+        behs += list({digest(j): j for j in rs.json if 'ev' in j}.values())
+    if len(behs) < need:
+        raise MachineryError('context behaviours incomplete: %d' % len(behs))
+    behs.sort(key=digest)
+    rendered = {}
+    n = 0
+    for bi, b in enumerate(behs):
+        stack, ctk, handler, bk, framing = b['stack'], b['ctype'], b['handler'], b['body'], b['framing']
+        ctype = ct_of(ctk, bi)
+        doc = P_DOCS['form' if handler == 'form' else 'json'][bi % 3]
+        if bk == 'hookfail':
+            doc = boomify(doc, rng)
+        key = (handler == 'form', bi % 3) if bk != 'hookfail' else None
+        if key in rendered:
+            sbody = rendered[key]
+        else:
+            sbody, sct, err = H.render(('wsgi', 'asgi')[bi % 2], ctype if handler == 'form' else 'application/json', doc)
+            if err:
+                raise MachineryError('cannot render %r: %s' % (doc, err))
+            if key is not None:
+                rendered[key] = sbody
+        expect, has_expect = None, False
+        if bk == 'empty':
+            body = b''
+            if handler == 'form':
+                expect, has_expect = {}, True
+        elif bk == 'valid':
+            body, expect, has_expect = sbody, doc, True
+        elif bk == 'truncated':
+            body = truncate_json(sbody, rng)
+        elif bk == 'blank':
+            body = BLANKS[bi % len(BLANKS)]
+        elif bk == 'hookfail':
+            body = sbody
+        else:
+            body = badenc_form(sbody, rng) if handler == 'form' else badenc_json(sbody, rng)
+        calls = [(w['op'], w['d'], w['cx']) for w in b['ev']]
+        ch = rng.choice(chunkings(len(body), rng, 3, stack))
+        case = {'leg': 'P', 'stack': stack, 'framing': framing, 'ctype': ctype, 'content_type': ctype, 'body_kind': bk, 'doc': doc,
+                'body': list(body), 'chunks': ch, 'spec': b['ev']}
+        evs, wire = H.request(stack, ctype, body, ch, calls, expect, has_expect, framing=framing)
+        n += 1
+        ctx.case(case, nontrivial=True, key=('P', bi))
+        if len(evs) != len(calls) or [e['cx'] for e in evs] != [c[2] for c in calls]:
+            ctx.violation('P:exc', case, 'the sites of the request did not make their accesses: %r of %r (wire %s)'
+                          % ([(e['cx'], e['out'], e['info']) for e in evs], calls, wire))
+            continue
+        bad = False
+        for i, (e, w) in enumerate(zip(evs, b['ev'])):
+            if compare_access(ctx, e, w, dict(case, access=i + 1, event={k: v for k, v in e.items()}), i > 0, w['v'] in ('doc', 'empty')):
+                bad = True
+                break
+        if not bad:
+            check_wire(ctx, H, b['ev'], wire, case)
+    ctx.traces_validated += n
+    ctx.extra['context_behaviours'] = n
+    ctx.progress('leg P done: %d behaviours with access contexts' % n)
+
+
 RESP_KINDS = ('dict', 'falsy', 'list', 'form')
 
 
@@ -951,8 +1204,26 @@ def compare_access(ctx, e, w, case, first_parse_done, check_eq):
         return ctx.violation('P:reparse', case, 'the handler parsed %d times' % e['nparse'])
     if e['out'] == 'err' and w['ek'] == 'custom' and not e['errsame']:
         return ctx.violation('P:errsame', case, "the handler's own exception was not re-raised as the same object")
+    if e['out'] == 'err' and w['ek'] != 'unsupported' and not e['psame']:
+        return ctx.violation('P:proj', case, 'a later access raised an error the application observes differently from the first one '
+                             '(LaterAccessesObserveFirstError): %s' % e['info'])
     if e['out'] == 'err' and w['ek'] != 'unsupported' and not e['errsame']:
         ctx.detail('D:errid', case, 'equal error but a different exception object')
+    if e['out'] == 'err' and w['ek'] in ('notfound', 'malformed') and e['p'] != w['p']:
+        ctx.detail('D:projkind', case, 'the error is not what the handler documents: spec %r, observed %r' % (w['p'], e['p']))
+    return False
+
+
+EVKEYS = ('op', 'd', 'cx', 'out', 'ek', 'status', 'same', 'eq', 'errsame', 'touched', 'nparse', 'psame', 'p')
+
+
+def check_wire(ctx, H, b_ev, wire, case):
+    """the error that propagated: its status, and its rendering against the snapshot of the first error"""
+    lw = b_ev[-1]
+    if lw['out'] == 'err' and wire != lw['status']:
+        return ctx.violation('P:wire', case, 'error reached the client as %s, spec says %s' % (wire, lw['status']))
+    if lw['out'] == 'err' and lw['ek'] in ('notfound', 'malformed') and H.wirebody == 'diff':
+        return ctx.violation('P:wirebody', case, 'the propagated error was rendered differently from the first error: %s' % H.wireinfo)
     return False
 
 
@@ -974,6 +1245,11 @@ def run(ctx):
                        'content-type parameters (charset=ISO-8859-1/latin1/windows-1252/us-ascii/utf-16/hex/bogus, version, profile) never '
                        'change what is parsed; exercised with non-ASCII documents through JSONHandler (ASGI fast path) and a JSONHandler '
                        'subclass (deserialize / deserialize_async)',
+                       'a request that declares no body (Content-Length: 0, blank, or no length header at all) has none; what an empty body '
+                       'means is the handler\'s decision on every access (HandlerDecidesEmpty)',
+                       '"the same error" = what an application observes: type, title, description, __cause__ (object and message), to_dict(), '
+                       'the rendered error document; compared with a snapshot taken at the first raise (P:proj, P:wirebody); that the first '
+                       'error is what the handler documents (title / parser message in the description / cause kind) is detail (D:projkind)',
                        'FreshPerRequest: identity is demanded for container documents (dict / list) only',
                        'every leg runs with the default Response classes and with response_type=<trivial subclass> on both stacks',
                        'whether the first access touches the stream for an empty body is not demanded; later accesses must not',
@@ -986,11 +1262,11 @@ def run(ctx):
     # ---- leg M ----------------------------------------------------------------------------------
     r = ctx.tlc('MC_MediaCache', 'MC_MediaCache.cfg', coverage=True, timeout=300, workers=4)
     ctx.require_coverage(r, ['XGetMedia', 'XGetMediaDefault', 'XMediaProperty'])
-    for cfg in ('MC_MediaCacheW1.cfg', 'MC_MediaCacheW2.cfg'):
+    for cfg in ('MC_MediaCacheW1.cfg', 'MC_MediaCacheW2.cfg', 'MC_MediaCacheW3.cfg', 'MC_MediaCacheW4.cfg'):
         rw = ctx.tlc('MC_MediaCache', cfg, must_hold=False, count=False, timeout=300, workers=2)
         if not rw.violated:
             raise MachineryError('wrong-design switch %s did not violate any invariant' % cfg)
-    ctx.extra['wrong_design_switches_caught'] = 2
+    ctx.extra['wrong_design_switches_caught'] = 4
     ctx.exhaustive = True
     ctx.progress('leg M done')
 
@@ -1002,7 +1278,8 @@ def run(ctx):
     tops.sort(key=digest)
     topvals = [v for sh in tops for v in inst_all(sh)]       # null, false, true, 0, "", [], {}, ... every pool scalar
     behs = list({digest(j): j for j in ra.json if 'ev' in j}.values())
-    if len(behs) != 3 * (7 * 7 + 2 * 3 + 4) * 81 or len(docs) < 700 or len(forms) < 200 or len(tops) != 12:
+    # 3 declared framings x every content type x body kind, + absent / blank Content-Length (empty bodies only) on both stacks
+    if len(behs) != (3 * (7 * 7 + 2 * 3 + 4) + 4 * 10) * 81 or len(docs) < 700 or len(forms) < 200 or len(tops) != 12:
         raise MachineryError('behaviour export incomplete: %d behaviours, %d docs, %d forms' % (len(behs), len(docs), len(forms)))
     docs.sort(key=digest)
     forms.sort(key=digest)
@@ -1035,7 +1312,7 @@ def run(ctx):
             doc = [doc, NONASCII]          # parameters must not matter: make sure there is something to get wrong
         if bk == 'hookfail':
             doc = boomify(doc, rng)
-        sbody, sct, err = H.render(rstack, rct, doc, custom=bi % 2)
+        sbody, sct, err = (b'', rct, None) if bk in ('empty', 'blank') else H.render(rstack, rct, doc, custom=bi % 2)
         case0 = {'leg': 'A', 'stack': stack, 'framing': framing, 'ctype': ctype, 'body_kind': bk, 'doc': doc, 'spec': b['ev']}
         if err:
             ctx.violation('P:serialize', case0, err)
@@ -1058,7 +1335,7 @@ def run(ctx):
             body = badenc_form(sbody, rng) if handler == 'form' else badenc_json(sbody, rng)
         # "the same content type": what the rendering app sent (unless this case is about another one)
         send_ct = ctype if (handler == 'none' or ctk == 'none' or bk not in ('valid', 'padded')) else sct
-        calls = [(w['op'], w['d']) for w in b['ev']]
+        calls = [(w['op'], w['d'], w['cx']) for w in b['ev']]
         for ch in chunkings(len(body), rng, nchunk, stack):
             case = dict(case0, body=list(body), chunks=ch, content_type=send_ct)
             evs, wire = H.request(stack, send_ct, body, ch, calls, expect, has_expect, framing=framing, custom=(bi // 2) % 2)
@@ -1072,9 +1349,8 @@ def run(ctx):
                 if compare_access(ctx, e, w, dict(case, access=i + 1, event=e), i > 0, w['v'] in ('doc', 'empty')):
                     bad = True
                     break
-            lw = b['ev'][-1]
-            if not bad and lw['out'] == 'err' and wire != lw['status']:
-                ctx.violation('P:wire', case, 'error reached the client as %s, spec says %s' % (wire, lw['status']))
+            if not bad:
+                check_wire(ctx, H, b['ev'], wire, case)
     ctx.traces_validated += replays
     ctx.extra['behaviours_replayed'] = len(behs)
     ctx.extra['replays'] = replays
@@ -1125,6 +1401,7 @@ def run(ctx):
     ctx.extra['roundtrips'] = nrt
     ctx.progress('leg A round trips done: %d' % nrt)
 
+    leg_p(ctx, H)
     # ---- leg B ----------------------------------------------------------------------------------
     leg_b(ctx, H)
     leg_resp(ctx, H)
@@ -1229,16 +1506,21 @@ def random_job(ctx, H, i):
         body = truncate_json(sbody, rng) if u < 0.8 else badenc_json(sbody, rng)
         bk = 'truncated' if u < 0.8 else 'badenc'
     calls = []
+    sites = rng.random() < 0.5       # half of the requests: accesses in a middleware / except blocks / an error handler too
     for _ in range(rng.choice((1, 2, 2, 3, 3, 4, 5, 7, 9))):
         u = rng.random()
-        calls.append(('media', False) if u < 0.3 else ('get', u < 0.65))
+        cx = rng.choice(('mw', 'plain', 'plain', 'except', 'except', 'exceptself', 'exceptself', 'errh', 'errh')) if sites else 'plain'
+        calls.append(('media', False, cx) if u < 0.3 else ('get', u < 0.65, cx))
+    calls.sort(key=lambda c: {'mw': 0, 'errh': 2}.get(c[2], 1))      # the order of a request's life
     L = len(body)
     ch = rng.choice((None, [1], [2], [rng.randint(1, L + 1)], [rng.randint(0, 3) for _ in range(rng.randint(1, 4))] + [1],
                      [L], [L + 3], [max(1, L // 3)]))
     if stack == 'wsgi':
         ch = None
     framing = 'chunked' if stack == 'asgi' and rng.random() < 0.5 else 'length'
-    return (stack, ctype, handler, body, bk, expect, has_expect, calls, ch, framing, rng.random() < 0.8, case)
+    if not body and rng.random() < 0.6:
+        framing = rng.choice(('absent', 'blank'))
+    return (stack, ctype, handler, body, bk, expect, has_expect, calls, ch, framing, rng.random() < 0.8 or sites, case)
 
 
 def leg_b(ctx, H):
@@ -1272,11 +1554,13 @@ def leg_b(ctx, H):
         evs, wire = H.request(stack, ctype, body, ch, calls, expect, has_expect, reraise=reraise, framing=framing)
         case.update(body=list(body), body_kind=bk, chunks=ch, calls=calls, framing=framing)
         ctx.case(case if len(body) < 2000 else dict(case, body='(%d bytes)' % len(body)), nontrivial=len(calls) >= 2 or bk != 'valid', key=i)
-        if len(evs) != len(calls):
-            ctx.violation('P:exc', case, 'responder did not complete: %d of %d accesses (wire %s)' % (len(evs), len(calls), wire))
+        if len(evs) != H.s.attempted:
+            ctx.violation('P:exc', case, 'responder did not complete: %d of %d accesses (wire %s)' % (len(evs), H.s.attempted, wire))
             continue
-        t = {'stack': stack, 'framing': framing, 'handler': handler, 'body': bk, 'wire': wire if wire != 200 else -1,
-             'ev': [{k: e[k] for k in ('op', 'd', 'out', 'ek', 'status', 'same', 'eq', 'errsame', 'touched', 'nparse')} for e in evs]}
+        if not evs:
+            continue
+        t = {'stack': stack, 'framing': framing, 'handler': handler, 'body': bk, 'wire': wire if wire != 200 else -1, 'wirebody': H.wirebody,
+             'ev': [{k: e[k] for k in EVKEYS} for e in evs]}
         k = digest(t)
         if k not in seen:
             seen.add(k)
@@ -1323,8 +1607,8 @@ def replay(ctx, case):
     body = bytes(case['body'])
     stack = case['stack']
     ct = case.get('content_type', case.get('ctype'))
-    if leg == 'A':
-        calls = [(w['op'], w['d']) for w in case['spec']]
+    if leg in ('A', 'P'):
+        calls = [(w['op'], w['d'], w.get('cx', 'plain')) for w in case['spec']]
         has = case['body_kind'] in ('valid',) or (case['body_kind'] == 'empty' and 'form' in (ct or ''))
         expect = case['doc'] if case['body_kind'] == 'valid' else {}
         evs, wire = H.request(stack, ct, body, case['chunks'], calls, expect, has, framing=case.get('framing', 'length'))
@@ -1332,7 +1616,9 @@ def replay(ctx, case):
             print(i + 1, 'falcon', e)
             print(i + 1, 'spec  ', w)
             compare_access(ctx, e, w, case, i > 0, w['v'] in ('doc', 'empty'))
-        print('wire', wire)
+        print('wire', wire, H.wirebody)
+        if len(evs) == len(case['spec']):
+            check_wire(ctx, H, case['spec'], wire, case)
     else:
         calls = [tuple(c) for c in case.get('calls', [('get', False), ('media', False)])]
         evs, wire = H.request(stack, ct, body, case.get('chunks'), calls, case.get('doc'), True, framing=case.get('framing', 'length'))
@@ -1342,7 +1628,7 @@ def replay(ctx, case):
         bk = case.get('body_kind', 'valid')
         handler = case.get('handler') or ('form' if 'form' in (ct or '') else 'json')
         t = {'stack': stack, 'framing': case.get('framing', 'length'), 'handler': handler, 'body': bk, 'wire': wire if wire != 200 else -1,
-             'ev': [{k: e[k] for k in ('op', 'd', 'out', 'ek', 'status', 'same', 'eq', 'errsame', 'touched', 'nparse')} for e in evs]}
+             'wirebody': H.wirebody, 'ev': [{k: e[k] for k in EVKEYS} for e in evs]}
         v = ctx.judge('MediaCacheTrace', [t], workers=1)
         print('verdict', v)
         if v[0] != 'ok' and v[0].startswith('P:'):
